@@ -465,6 +465,8 @@ impl DebugSession {
             body,
         };
         let value = serde_json::to_value(rsp)?;
+        #[cfg(bs_verif)]
+        crate::verif::point("session.resp_after_seq");
 
         let mut lock = self.io.lock().unwrap();
         lock.write_message(&value)
@@ -481,6 +483,8 @@ impl DebugSession {
 
     fn send_event_raw(&mut self, name: &'static str, body: Option<Value>) -> anyhow::Result<()> {
         let seq = self.next_seq();
+        #[cfg(bs_verif)]
+        crate::verif::point("session.event_after_seq");
         let mut lock = self.io.lock().unwrap();
 
         protocol::send_event(seq, &mut *lock, name, body)
@@ -540,10 +544,14 @@ impl DebugSession {
             let mut buf = String::new();
             loop {
                 buf.clear();
+                #[cfg(bs_verif)]
+                crate::verif::point("fwdout.before_read");
                 match reader.read_line(&mut buf) {
                     Ok(0) => break,
                     Ok(_) => {
                         let s = seq.fetch_add(1, std::sync::atomic::Ordering::Relaxed);
+                        #[cfg(bs_verif)]
+                        crate::verif::point("fwdout.after_seq");
 
                         {
                             let mut lock = io.lock().unwrap();
@@ -569,10 +577,14 @@ impl DebugSession {
             let mut buf = String::new();
             loop {
                 buf.clear();
+                #[cfg(bs_verif)]
+                crate::verif::point("fwderr.before_read");
                 match reader.read_line(&mut buf) {
                     Ok(0) => break,
                     Ok(_) => {
                         let s = seq.fetch_add(1, std::sync::atomic::Ordering::Relaxed);
+                        #[cfg(bs_verif)]
+                        crate::verif::point("fwderr.after_seq");
 
                         {
                             let mut lock = io.lock().unwrap();
@@ -589,6 +601,8 @@ impl DebugSession {
                 }
             }
         });
+        #[cfg(bs_verif)]
+        crate::verif::point("session.spawned_forwarders");
     }
 
     fn decode_frame_id(frame_id: i64) -> (i64, u32) {
@@ -662,6 +676,8 @@ impl DebugSession {
         loop {
             self.drain_events()?;
 
+            #[cfg(bs_verif)]
+            crate::verif::point("session.before_read");
             let msg = {
                 let mut lock = self.io.lock().unwrap();
                 lock.read_message()?
